@@ -47,7 +47,7 @@ ASSUMPTIONS = [
     "a scope constructed after its parent's completion already fired cannot delay that completion: only no-failure, once, stable and its own ordering are judged for it",
     "scopes constructed but never entered are not generated; relative order of sibling completions and the delay between last exit and callback (before quiescence) are unspecified",
 ]
-MINIMUMS = {"failed_enters": 300, "monitor:once": 20000, "monitor:after-subtree": 20000, "child_left_after_parent": 3000, "late_children": 300, "set:schedules": 4000, "async_callbacks": 2000, "spawns_attempted_while_the_scope_aborts": 24, "scopes_whose_resources_could_not_be_collected": 50}
+MINIMUMS = {"failed_enters": 300, "monitor:once": 20000, "monitor:after-subtree": 20000, "child_left_after_parent": 3000, "late_children": 300, "set:schedules": 4000, "async_callbacks": 2000, "spawns_attempted_while_the_scope_aborts": 24, "scopes_whose_resources_could_not_be_collected": 20}
 JOBS = {"quick": 4, "thorough": 16}
 LEVEL_TEXT = (
     "All trees of up to 3 nodes x node kinds x placements are run under every linearisation of their gated enters/exits (DFS, capped), 4-5 node trees with mixed callback kinds "
